@@ -142,7 +142,7 @@ func (g *goNodeWorld) takeFor(i int, some bool) []*simDatagram {
 func runGoNode(rc *sk.RunCtx, focus string) {
 	tp := rc.Tape
 	if focus == "C29" {
-		bits := 3 + tp.Choose(4)
+		bits := 2 + tp.Choose(5)
 		sq := &squeezeReader{inner: rand.Reader, mask: byte(1<<bits - 1)}
 		saved := rand.Reader
 		rand.Reader = sq
